@@ -174,6 +174,10 @@ def main(ctx, replay=None):
                         f"(or the shared module state changed)")
             ctx.violation(f"{what} in the process with history {case.get('history')} under {case.get('env')}",
                           {"event": bad, **case}, {"clause": "trace", "q": str(bad.get("q", "")).split(":")[0], "ev": bad.get("ev")})
+        if ctx.tier == "thorough" and ok:
+            from cv.trace import binding_control
+            k = next(i for i, e in enumerate(trace) if e.get("ev") == "Observe")
+            binding_control(ctx, "Trace_Lifecycle", "Trace_Lifecycle.cfg", trace, k, lambda e: dict(e, digest="0" * 20), "life_neg", "digest", timeout=600)
         ctx.cov["processes"] = len(results) + 1
     finally:
         wd.close()
